@@ -5,8 +5,8 @@ M = "xhair.obl.c13"
 
 def x_obligations(tier):
     o = []
-    T = 170 if tier == "quick" else 1200
-    triples = [(0, 1, 4), (4, 4, 0), (1, 2, 3)] if tier == "quick" else [(a, b, c) for a in range(5) for b in range(5) for c in range(5) if (a + 2 * b + c) % 3 == 0]
+    T = 170 if tier == "quick" else 600
+    triples = [(0, 1, 4), (4, 4, 0), (1, 2, 3)] if tier == "quick" else [(a, b, c) for a in range(5) for b in range(5) for c in range(5) if (a + 2 * b + 3 * c) % 7 == 0]
     for w in ("lru_kw_cache", "lru_cache", "hit_cache"):
         for ms in (1, 2):
             for (m1, m2, m3) in triples:
